@@ -42,6 +42,21 @@ func famC11(g *Gen, o *Out, n int, thorough bool) {
 				}
 				m, _ := mh.Encode(d.Digest, code)
 				k = cid.NewCidV1(cid.Raw, m)
+			} else if len(recs) > 0 && g.pick(4) == 0 {
+				// a near twin: same hash code and width, digest equal up to a late byte (lookups that
+				// compare only a prefix, or stop their scan at the first different digest, show here)
+				old := recs[g.pick(len(recs))].Cid
+				d, _ := mh.Decode(old.Hash())
+				nd := append([]byte{}, d.Digest...)
+				if len(nd) > 0 {
+					p := g.pick(len(nd))
+					if len(nd) > 9 && g.pick(3) != 0 {
+						p = 8 + g.pick(len(nd)-8)
+					}
+					nd[p] ^= byte(1 + g.pick(255))
+				}
+				m, _ := mh.Encode(nd, d.Code)
+				k = cid.NewCidV1(cid.Raw, m)
 			} else {
 				k = g.recordCid(widths[g.pick(len(widths))])
 			}
